@@ -4,3 +4,8 @@ import AxVerif.Model.Wire
 import AxVerif.Generated.Wire
 import AxVerif.Driver.Wire
 import AxVerif.Thm.C20
+import AxVerif.Model.Cache
+import AxVerif.Model.Config
+import AxVerif.Generated.Cache
+import AxVerif.Driver.Cache
+import AxVerif.Thm.C12
